@@ -6,7 +6,13 @@ run (Interp) in which a count, a pointer or a destruction is wrong, or a counter
 (CounterRun) computes the wrong result / performs the wrong sequence of atomic operations.  Both evaluators are closed
 world: a statement, expression, call, initialiser or atomic operation they do not model exactly raises dtable.Undecidable
 (exit 2), never a violation.  Nothing is concluded from the absence of a syntactic shape; locals, parameters and the two
-data members (PTR_FIELD, COUNT_FIELD) are identified by role and type, not by name."""
+data members (PTR_FIELD, COUNT_FIELD) are identified by role and type, not by name.
+
+Concurrent clause (release decision in CountingPtr): every sequential scenario is re-run with ONE step of another owner of
+the same object (it drops or copies its own handle; when its decrement reaches zero it destroys the object) placed just before
+each operation on the shared counter.  A member that decides the destruction from an earlier look at the count instead of from
+the result of its own dec_reference() leaks (or touches a destroyed object) in one of these runs; that run is the
+counterexample.  Each written call of the pointee's dec_reference() must have been the last decrement in such a run."""
 import itertools
 
 from engine import ir, dtable, match
@@ -65,6 +71,7 @@ class Bad(Exception):
 
     def __init__(self, sig, msg):
         self.sig, self.msg = sig, msg
+        self.step = None         # the concurrent step of another owner that was interleaved with the run, if any
 
 
 class Store:
@@ -75,6 +82,38 @@ class Store:
         self.fresh = 0
         self.ntemp = 0
         self.alive_handles = set()
+        # the concurrent clause: one step of ANOTHER owner (a handle outside the member) interleaved with the member
+        self.ext = {}            # object -> number of owners outside the member (the environment)
+        self.borrowed = set()    # objects whose raw pointer was passed in: the caller keeps them alive until they are adopted
+        self.points = 0          # interleaving points passed so far: the operations on a shared counter, and delete
+        self.inj = None          # (index of the point, "release" | "acquire", object): the environment's one step
+        self.inj_done = None     # description of the step once it has been taken (False: it was not enabled there)
+        self.inj_site = None     # the call node just before which it was taken
+        self.zero_at = {}        # object -> (text, loc) of the member's own decrement that reached zero
+        self.env_deleted = set() # objects destroyed by the other owner (its release was the last one)
+        self.dec_last = set()    # dec_reference() call nodes that were the last decrement right after an injected release
+
+    def env_step(self, where, site):
+        """the environment's step.  An owner outside the member may drop or copy ITS handle at any time; when its decrement
+        reaches zero it destroys the object (it honours the result of its own decrement)."""
+        k, kind, o = self.inj
+        self.inj_done = False
+        if self.ext.get(o, 0) <= 0 or self.deleted.get(o, 0) or self.count.get(o, 0) < 1:
+            return
+        if kind == "release":
+            if self.count[o] == 1 and o in self.borrowed:
+                return               # the caller of a raw-pointer member guarantees the object outlives the call
+            self.count[o] -= 1
+            self.ext[o] -= 1
+            if self.count[o] == 0:
+                self.deleted[o] = self.deleted.get(o, 0) + 1
+                self.env_deleted.add(o)
+            self.inj_done = "another owner of %s releases its reference %s" % (o, where)
+        else:
+            self.count[o] += 1
+            self.ext[o] += 1
+            self.inj_done = "another owner of %s copies its handle %s" % (o, where)
+        self.inj_site = site
 
     def new_obj(self):
         self.fresh += 1
@@ -118,6 +157,16 @@ class Interp:
 
     def und(self, fr, n, what):
         return dtable.Undecidable("%s: %s: %s" % (fr.fn.nloc(n), what, dtable.describe(n)))
+
+    def point(self, n, fr):
+        """an interleaving point: the environment's step (if one is scheduled here) happens just before operation n.  Steps of
+        another owner touch only the shared counter, so they commute with everything else the member does; placing them
+        immediately before each counter operation (and each delete) represents every interleaving of one such step."""
+        st = self.st
+        k = st.points
+        st.points += 1
+        if st.inj is not None and st.inj_done is None and st.inj[0] == k:
+            st.env_step("just before %s at %s" % (dtable.describe(n), fr.fn.nloc(n)), id(n))
 
     # -------------------------------------------------------------- values
     def lval(self, n, fr):
@@ -273,6 +322,7 @@ class Interp:
                 return None
             if not isinstance(v, str) or v == UNINIT:
                 raise self.und(fr, n, "deleted pointer not understood")
+            self.point(n, fr)
             st.deleted[v] = st.deleted.get(v, 0) + 1
             if st.count.get(v, 0) != 0:
                 raise Bad("delete-live", "object deleted while its reference count is %d" % st.count[v])
@@ -468,8 +518,11 @@ class Interp:
                 raise Bad("null-deref", "%s() is called through a null pointer" % name)
             if not isinstance(o, str) or o == UNINIT or o not in st.count:
                 raise self.und(fr, n, "pointee of the call not understood")
+            self.point(n, fr)
             if st.deleted.get(o, 0) > 0:
-                raise Bad("use-after-delete", "%s() on an object that was already destroyed" % name)
+                raise Bad("use-after-delete", "%s() on an object that was already destroyed%s" %
+                          (name, " (the other owner's release was the last one and destroyed it: the member no longer holds a "
+                           "reference at this point)" if o in st.env_deleted else ""))
             if name == "inc_reference":
                 st.count[o] += 1
                 return None
@@ -477,6 +530,10 @@ class Interp:
                 if st.count[o] <= 0:
                     raise Bad("underflow", "reference count of a live object decremented below zero")
                 st.count[o] -= 1
+                if st.count[o] == 0:
+                    st.zero_at[o] = (dtable.describe(n), fr.fn.nloc(n))
+                    if st.inj_done and st.inj[1] == "release" and st.inj[2] == o and st.inj_site == id(n):
+                        st.dec_last.add(id(n))
                 return st.count[o] == 0
             if name == "unique":
                 return st.count[o] == 1
@@ -746,7 +803,9 @@ def scenarios(fn):
     return out
 
 
-def run_scenario(tu, fn, sc):
+def run_scenario(tu, fn, sc, inj=None):
+    """inj: (k, kind, object) - one step of an owner outside the member, taken just before the k-th interleaving point
+    (after the member has finished if it passes fewer points)"""
     tp, ok, ov, ea, eb = sc
     for p in fn.params[:1]:
         if is_cp_ty(p["ty"]) and not is_ref_ty(p["ty"]):
@@ -757,7 +816,8 @@ def run_scenario(tu, fn, sc):
     for o in ("A", "B"):
         st.count[o] = 0
         st.deleted[o] = 0
-    ext = {"A": ea, "B": eb}
+    ext = st.ext = {"A": ea, "B": eb}
+    st.inj = inj
     pre_handles = {"A": ea, "B": eb}
     if fn.kind != "ctor":
         st.h["this"] = tp
@@ -776,6 +836,8 @@ def run_scenario(tu, fn, sc):
     elif ok == "raw":
         args = [ov]
         # a raw pointer to an object nobody owns yet is the normal use; A with ext handles also allowed
+        if ov != NULL:
+            st.borrowed.add(ov)
     elif ok == "nullptr":
         args = [NULL]
     for o in ("A", "B"):
@@ -783,29 +845,38 @@ def run_scenario(tu, fn, sc):
     if fn.kind == "ctor":
         st.h["this"] = UNINIT
         st.alive_handles.add("this")
-    it = Interp(tu, st)
-    fr0 = Frame(fn, "this")
-    it.invoke(fn, "this", args, fr0)
-    if fn.kind == "ctor" and st.h.get("this") == UNINIT:
-        # every initialiser and statement of the constructor was understood and none of them sets the pointer
-        raise Bad("uninit", "constructor leaves the pointer uninitialised")
-    if fn.kind == "dtor":
-        st.alive_handles.discard("this")
-        st.h.pop("this", None)
-    # post-state accounting
-    for o in list(st.count):
-        nh = ext.get(o, 0) + sum(1 for h in st.alive_handles if st.h.get(h) == o)
-        if st.deleted.get(o, 0) > 1:
-            raise Bad("double-delete", "object %s is destroyed %d times" % (o, st.deleted[o]))
-        if st.deleted.get(o, 0) == 1:
-            if nh > 0:
-                raise Bad("deleted-while-owned", "object %s is destroyed although %d handle(s) still point to it" % (o, nh))
-            continue
-        if st.count[o] != nh:
-            raise Bad("count-mismatch", "reference count of %s is %d but %d handle(s) point to it" % (o, st.count[o], nh))
-        if nh == 0 and (pre_handles.get(o, 0) > 0 or o.startswith("NEW")):
-            # last owner gone (or a fresh object never adopted) but not destroyed
-            raise Bad("leak", "object %s lost its last handle but was not destroyed" % o)
+    try:
+        it = Interp(tu, st)
+        fr0 = Frame(fn, "this")
+        it.invoke(fn, "this", args, fr0)
+        if inj is not None and st.inj_done is None:
+            st.env_step("after the member's last count operation", None)
+        if fn.kind == "ctor" and st.h.get("this") == UNINIT:
+            # every initialiser and statement of the constructor was understood and none of them sets the pointer
+            raise Bad("uninit", "constructor leaves the pointer uninitialised")
+        if fn.kind == "dtor":
+            st.alive_handles.discard("this")
+            st.h.pop("this", None)
+        # post-state accounting
+        for o in list(st.count):
+            nh = ext.get(o, 0) + sum(1 for h in st.alive_handles if st.h.get(h) == o)
+            if st.deleted.get(o, 0) > 1:
+                raise Bad("double-delete", "object %s is destroyed %d times" % (o, st.deleted[o]))
+            if st.deleted.get(o, 0) == 1:
+                if nh > 0:
+                    raise Bad("deleted-while-owned", "object %s is destroyed although %d handle(s) still point to it" % (o, nh))
+                continue
+            if st.count[o] != nh:
+                raise Bad("count-mismatch", "reference count of %s is %d but %d handle(s) point to it" % (o, st.count[o], nh))
+            if nh == 0 and (pre_handles.get(o, 0) > 0 or o.startswith("NEW")):
+                # last owner gone (or a fresh object never adopted) but not destroyed
+                z = st.zero_at.get(o)
+                raise Bad("leak", "object %s lost its last handle but was not destroyed%s" %
+                          (o, "" if z is None else ": %s at %s returned true (it was the last reference) but that result does not "
+                           "lead to the deleter" % z))
+    except Bad as b:
+        b.step = st.inj_done or None
+        raise
     return st
 
 
@@ -819,9 +890,54 @@ def member_label(fn):
     return "%s(%s)" % (fn.name, ps)
 
 
+def role_obligations(fn, sc, st, concurrent=False):
+    """what the member is for, beyond conservation: where the handles point afterwards"""
+    tp, ok, ov, ea, eb = sc
+    nonself_move = fn.d.get("move_assign") or (fn.name == "operator=" and fn.params and "&&" in fn.params[0]["ty"])
+    try:
+        if fn.name == "operator=" or (fn.kind == "ctor" and ok == "handle"):
+            src_ptr = tp if ok == "self" else NULL if ok == "nullptr" else ov
+            if st.h.get("this") != src_ptr:
+                raise Bad("wrong-target", "after the operation the handle points to %s instead of the source's object %s" % (st.h.get("this"), src_ptr))
+        if fn.kind == "ctor" and ok == "raw" and st.h.get("this") != ov:
+            raise Bad("wrong-target", "handle does not point to the adopted pointer")
+        if fn.name == "reset" and st.h.get("this") != NULL:
+            raise Bad("reset-not-null", "reset() leaves a non-null pointer")
+        if fn.name == "swap" and ok == "handle" and (st.h["this"], st.h["other"]) != (ov, tp):
+            raise Bad("swap-exchange", "swap does not exchange the two pointers")
+        if (fn.kind == "ctor" and ok == "handle" and "&&" in fn.params[0]["ty"]) and st.h["other"] != NULL:
+            raise Bad("move-source", "moved-from handle is not null after move construction")
+        if nonself_move and ok == "handle" and ov != tp and st.h["other"] != NULL:
+            raise Bad("move-source", "moved-from handle is not null after move assignment")
+        if fn.name == "unify" and not concurrent:
+            # (with a concurrent step whether the object "is shared" depends on the moment; conservation is what is checked then)
+            shared = tp != NULL and (1 + (ea if tp == "A" else 0)) > 1
+            cloned = st.h["this"] not in (tp,)
+            if shared != cloned:
+                raise Bad("unify-guard", "unify() %s although the object %s shared" %
+                          ("clones" if cloned else "does not clone", "is" if shared else "is not"))
+    except Bad as b:
+        b.step = st.inj_done or None
+        raise
+
+
+def pointee_dec_sites(tu):
+    """every call of the pointee's dec_reference() written in a member of CountingPtr<Base>"""
+    out = []
+    for fn in tu.find(record=CP):
+        if fn.rtargs[:1] != ["Base"]:
+            continue
+        for x in fn.nodes():
+            if "callee" in x and x.get("member_call") and x["callee"].get("record") != CP and x["callee"]["name"] == "dec_reference":
+                out.append((fn, x))
+    return out
+
+
 def check_members(ck, tu):
     resolve_ptr_field(tu)
     n = 0
+    dec_last = set()
+    violated = False
     for fn in tu.find(record=CP):
         if fn.rtargs[:1] != ["Base"]:
             continue
@@ -829,45 +945,73 @@ def check_members(ck, tu):
             label = member_label(fn)
             scs = scenarios(fn)
             bad = None
-            nonself_move = fn.d.get("move_assign") or (fn.name == "operator=" and fn.params and "&&" in fn.params[0]["ty"])
+            base_points = {}
             for sc in scs:
                 try:
                     st = run_scenario(tu, fn, sc)
-                    # extra role obligations
-                    tp, ok, ov, ea, eb = sc
-                    if fn.name == "operator=" or (fn.kind == "ctor" and ok == "handle"):
-                        src_ptr = tp if ok == "self" else NULL if ok == "nullptr" else ov
-                        if st.h.get("this") != src_ptr:
-                            raise Bad("wrong-target", "after the operation the handle points to %s instead of the source's object %s" % (st.h.get("this"), src_ptr))
-                    if fn.kind == "ctor" and ok == "raw" and st.h.get("this") != ov:
-                        raise Bad("wrong-target", "handle does not point to the adopted pointer")
-                    if fn.name == "reset" and st.h.get("this") != NULL:
-                        raise Bad("reset-not-null", "reset() leaves a non-null pointer")
-                    if fn.name == "swap" and ok == "handle" and (st.h["this"], st.h["other"]) != (ov, tp):
-                        raise Bad("swap-exchange", "swap does not exchange the two pointers")
-                    if (fn.kind == "ctor" and ok == "handle" and "&&" in fn.params[0]["ty"]) and st.h["other"] != NULL:
-                        raise Bad("move-source", "moved-from handle is not null after move construction")
-                    if nonself_move and ok == "handle" and ov != tp and st.h["other"] != NULL:
-                        raise Bad("move-source", "moved-from handle is not null after move assignment")
-                    if fn.name == "unify":
-                        shared = tp != NULL and (1 + (ea if tp == "A" else 0)) > 1
-                        cloned = st.h["this"] not in (tp,)
-                        if shared != cloned:
-                            raise Bad("unify-guard", "unify() %s although the object %s shared" %
-                                      ("clones" if cloned else "does not clone", "is" if shared else "is not"))
+                    role_obligations(fn, sc, st)
+                    base_points[sc] = st.points
                 except Bad as b:
-                    bad = (sc, b)
+                    bad = (sc, b, None)
                     break
             ck.states += len(scs)
+            # the concurrent clause.  Every sequential scenario holds; now ONE step of another owner of the same object (it
+            # drops or copies its own handle; if its decrement reaches zero it destroys the object) is interleaved at every
+            # point where the member operates on a shared counter.  A decision taken from an earlier look at the count
+            # (unique(), reference_count(), a previous result) is stale there: only the result of the member's own
+            # dec_reference() says whether that decrement was the last one.
+            nconc = 0
+            if not bad:
+                for sc in scs:
+                    for o, e in (("A", sc[3]), ("B", sc[4])):
+                        if not e:
+                            continue
+                        for k in range(base_points[sc] + 1):
+                            for kind in ("release", "acquire"):
+                                try:
+                                    st = run_scenario(tu, fn, sc, inj=(k, kind, o))
+                                    nconc += 1
+                                    if st.inj_done:
+                                        role_obligations(fn, sc, st, concurrent=True)
+                                        dec_last.update(st.dec_last)
+                                except Bad as b:
+                                    bad = (sc, b, (k, kind, o))
+                                    break
+                            if bad:
+                                break
+                        if bad:
+                            break
+                    if bad:
+                        break
+                ck.states += nconc
             if bad:
-                sc, b = bad
-                ck.violation("RC-CONSERVE", fn.qname, "%s:%s" % (label, b.sig),
-                             "%s in scenario [%s]" % (b.msg, describe_sc(sc)), fn.loc)
+                sc, b, inj = bad
+                if inj is None:
+                    ck.violation("RC-CONSERVE", fn.qname, "%s:%s" % (label, b.sig),
+                                 "%s in scenario [%s]" % (b.msg, describe_sc(sc)), fn.loc)
+                else:
+                    ck.violation("RC-CONSERVE", fn.qname, "%s:%s/concurrent" % (label, b.sig),
+                                 "%s in scenario [%s; %s]" % (b.msg, describe_sc(sc), b.step or "a concurrent step of another owner"),
+                                 fn.loc)
+                violated = True
             else:
                 ck.ok("RC-CONSERVE", "CountingPtr<Base>::" + label,
-                      "%d alias/ownership scenarios: count == #handles, destroyed exactly when the last handle goes" % len(scs),
-                      sample=dict(rule="RC-CONSERVE", member=label, scenarios=len(scs), example=describe_sc(scs[-1])))
+                      "%d alias/ownership scenarios (+%d with one concurrent step of another owner): count == #handles, "
+                      "destroyed exactly when the last handle goes" % (len(scs), nconc),
+                      sample=dict(rule="RC-CONSERVE", member=label, scenarios=len(scs), concurrent=nconc, example=describe_sc(scs[-1])))
             n += 1
+    # RELEASE DECISION at every call of the pointee's dec_reference(): in some run above the call was the last decrement
+    # although the count was 2 an instant earlier (another owner released just before it), and the object was destroyed
+    # exactly once.  A call site that no checked member reaches in that situation is not established.
+    if not violated:
+        for fn, x in pointee_dec_sites(tu):
+            if id(x) not in dec_last:
+                raise dtable.Undecidable(
+                    "%s: %s in %s: no scenario of the checked members makes this call the last decrement right after another "
+                    "owner's release; whether its own result decides the destruction is not established"
+                    % (fn.nloc(x), dtable.describe(x), fn.full))
+            ck.ok("RC-CONSERVE", "%s at %s" % (dtable.describe(x), fn.nloc(x)),
+                  "the call's own result decides the destruction: last decrement right after another owner's release -> destroyed once")
     # free functions
     for fn in tu.find(qname="tlx::make_counting"):
         try:
@@ -1503,7 +1647,9 @@ def run(ck):
         "owners; private helpers, the deleter and temporaries (constructed and destroyed at full-expression end) are inlined "
         "from the IR. Obligation in every scenario: count(o) == number of handles on o, o destroyed exactly once and exactly "
         "when the last handle goes, no count operation on a destroyed object, source nulled by moves, target points to the "
-        "source's object. ReferenceCounter: inc/dec are single atomic RMWs and the release decision is the RMW's own result; "
+        "source's object. Concurrent clause: each scenario is repeated with one step of another owner (release or copy of its "
+        "handle) interleaved before every counter operation, so a destruction decided from a stale look at the count instead "
+        "of the member's own dec_reference() result is a leak / use-after-destroy in a concrete run. ReferenceCounter: inc/dec are single atomic RMWs and the release decision is the RMW's own result; "
         "copies start at zero. Under sequential consistency of the RMWs these are necessary and, for two-handle histories, "
         "sufficient; arbitrary interleavings are argued from that, not explored.")
     tu = ir.extract("witness/C12_counting_ptr.cpp", roots=[ir.REPO + "/tlx/", ir.VERIF + "/witness/"],
